@@ -39,6 +39,10 @@ const ORDER_TARGETS: &[(u32, &str, &str)] = &[
     (42, "crates/ripd/src/tasks/mod.rs", "run_task"),
     (43, "crates/ripd/src/session.rs", "stream_openresponses_request"),
     (44, "crates/ripd/src/server.rs", "thread_post_message"),
+    (45, "crates/ripd/src/continuities.rs", "ContinuityStore::compaction_auto_schedule_spawn_job_v1"),
+    (46, "crates/ripd/src/continuities.rs", "ContinuityStore::compaction_auto_spawn_job_v1"),
+    (47, "crates/ripd/src/continuities.rs", "ContinuityStore::compaction_auto_v1"),
+    (48, "crates/ripd/src/continuities.rs", "ContinuityStore::compaction_auto_schedule_v1"),
 ];
 
 const CONST_TARGETS: &[(&str, &str)] = &[
@@ -168,6 +172,9 @@ impl<'ast> Visit<'ast> for Collect {
             "append_context_compiled" => self.out.push(Eff::Mark("compiled")),
             "append_provider_cursor_updated" => self.out.push(Eff::Mark("cursorUpdated")),
             "append_run_ended" => self.out.push(Eff::Mark("runEnded")),
+            // compaction planner (C02/C09): any other frame append of the store
+            n if n.starts_with("append_") && n != "append_best_effort" && recv == "self" => self.out.push(Eff::Mark("appendFrame")),
+            "compaction_auto_spawn_job_v1" | "compaction_auto_run_spawned_job_v1" | "compaction_auto_schedule_spawn_job_v1" => self.out.push(Eff::Mark("appendFrame")),
             _ => {}
         }
     }
@@ -370,6 +377,11 @@ fn stmt_expr_inner(e: &syn::Expr, out: &mut Vec<Eff>, scope_guards: &mut Vec<u32
                 && matches!(i.then_branch.stmts.last(), Some(syn::Stmt::Expr(syn::Expr::Return(_), _)));
             if gate {
                 out.push(Eff::Mark("validateGate"));
+            }
+            // the dry-run gate: `if dry_run { return … }`
+            let dry_gate = cond_s == "dry_run" || ((cond_s.ends_with("||dry_run") || cond_s.starts_with("dry_run||")) && !cond_s.contains("&&"));
+            if dry_gate && matches!(i.then_branch.stmts.last(), Some(syn::Stmt::Expr(syn::Expr::Return(_), _))) {
+                out.push(Eff::Mark("dryRunGate"));
             }
             if let Some((t, _)) = marks {
                 out.push(Eff::Mark(t));
@@ -891,7 +903,7 @@ fn main() {
     // ---- emit Lean
     let mut lean = String::new();
     lean.push_str("/- GENERATED by ripx from /repo's current source. Do not edit. -/\nnamespace Rip.Gen\n\n");
-    lean.push_str("inductive Eff\n  | publish | record | lock (n : Nat) | unlock (n : Nat) | logAppend | cacheAppend | bump\n  | subscribe | snapshot | seqLoad | createThread | runTool | emitBatch | sideEffects | runProcess | fsWrite | fsFlush\n  | brNeedsLock | brNoLock | brBarred | brAllowed | brEnd | validateGate | httpSend\n  | appendMessage | runSpawned | spawnSession | selDecided | compiled | cursorUpdated | runEnded | writeSnapshot | agentLoop\n  deriving Repr, DecidableEq\n\n");
+    lean.push_str("inductive Eff\n  | publish | record | lock (n : Nat) | unlock (n : Nat) | logAppend | cacheAppend | bump\n  | subscribe | snapshot | seqLoad | createThread | runTool | emitBatch | sideEffects | runProcess | fsWrite | fsFlush\n  | brNeedsLock | brNoLock | brBarred | brAllowed | brEnd | validateGate | httpSend\n  | appendMessage | runSpawned | spawnSession | selDecided | compiled | cursorUpdated | runEnded | writeSnapshot | agentLoop\n  | appendFrame | dryRunGate\n  deriving Repr, DecidableEq\n\n");
     lean.push_str("/-- lock ids: 1 = recorded-frames buffer, 2 = task seq counter, 3 = continuity next_seq map, 4 = index, 5 = log file, 9 = other -/\n");
     lean.push_str("def effectOrders : List (Nat × List Eff) := [\n");
     for (k, (id, path, effs)) in orders.iter().enumerate() {
